@@ -17,6 +17,7 @@ EXHAUSTIVE = True
 RULE = ("all 8 x 8 (start, target) pairs x transport {SDO, PDO} x extra status bits {0, all non-state bits} x drive variant "
         "{stays in QUICK STOP ACTIVE, leaves it automatically}; within a case every timing of the automatic transitions with "
         "<= N 'not yet' answers at individual statusword samples; decoder: all 65536 statuswords; op mode: 10 mode names x "
+        "a uniformly slow drive (every commanded transition 0.05..0.38 s, below the 0.4 s step time-out) for all pairs; "
         "all 1024 masks of the ten support bits + {0, 0xFFFFFFFF}. state = (drive state, library step); non-trivial = "
         "executions with >= 1 delayed automatic transition plus pairs needing >= 2 controlword writes")
 ASSUMPTIONS = [
@@ -67,6 +68,12 @@ def cases(tier, seed):
             for lq in (False, True):
                 for start in D.STATES:
                     out.append({"part": "pairs", "transport": transport, "extra": extra, "leaves_qs": lq, "start": start, "N": N})
+    # a uniformly slow drive: every commanded transition takes `latency` seconds (below the library's 0.4 s per step)
+    for transport in ("sdo", "pdo"):
+        for lat in (0.05, 0.15, 0.25, 0.3, 0.35, 0.38):
+            for start in D.STATES:
+                out.append({"part": "pairs", "transport": transport, "extra": 0, "leaves_qs": False, "start": start, "N": 0,
+                            "latency": lat})
     for lo in range(0, 65536, 8192):
         out.append({"part": "decoder", "range": [lo, lo + 8192]})
     for name in D.MODE_CODES:
@@ -75,11 +82,12 @@ def cases(tier, seed):
     return out[k:] + out[:k]
 
 
-def make(transport, start, ch, extra, leaves_qs):
+def make(transport, start, ch, extra, leaves_qs, latency=0.0):
     from canopen.profiles.p402 import BaseNode402
     import canopen
     simenv.new_world()
-    drive = D.Drive402(start, choose=ch.choose, extra_bits=extra, leaves_quick_stop=leaves_qs)
+    drive = D.Drive402(start, choose=ch.choose, extra_bits=extra, leaves_quick_stop=leaves_qs, latency=latency,
+                       clock=lambda: simenv.W.now)
     bus = simenv.SimBus("inline")
     net = canopen.Network()
     bus.attach(net, "master")
@@ -123,6 +131,8 @@ def make(transport, start, ch, extra, leaves_qs):
 
         def idle():
             # the library waits for the (periodic) TPDO: the drive transmits its current statusword
+            if latency:
+                simenv.W.now += 0.01              # a TPDO every 10 ms
             bus.inject(0x183, struct.pack("<Hb", drive.sample_statusword(), drive.mode), src_name="drive")
         simenv.W.idle_hooks.append(idle)
         node.setup_402_state_machine(read_pdos=False)
@@ -132,7 +142,7 @@ def make(transport, start, ch, extra, leaves_qs):
 
 
 def one_pair(case, target, ch):
-    node, drive, bus = make(case["transport"], case["start"], ch, case["extra"], case["leaves_qs"])
+    node, drive, bus = make(case["transport"], case["start"], ch, case["extra"], case["leaves_qs"], case.get("latency", 0.0))
     t0 = simenv.W.now
     err = None
     try:
